@@ -163,6 +163,9 @@ pub fn family_pd(tier: Tier) -> Vec<PProblem> {
             task(Delivery, vec![place(2, 1., &[], Some("d2"))], &[1]),
         ]),
         job("m_tw", vec![task(Pickup, vec![place(4, 2., &[(60., 100.)], Some("p"))], &[1]), task(Delivery, vec![place(2, 2., &[(100., 220.)], Some("d"))], &[1])]),
+        // pickup + delivery mixed with a service / a replacement task; the delivery place is the closest to the depot
+        job("m_ps", vec![task(Pickup, vec![place(3, 1., &[], Some("p"))], &[1]), task(Delivery, vec![place(1, 1., &[], Some("d"))], &[1]), task(Service, vec![place(2, 1., &[], Some("s"))], &[])]),
+        job("m_pr", vec![task(Pickup, vec![place(4, 1., &[], Some("p"))], &[1]), task(Delivery, vec![place(1, 1., &[], Some("d"))], &[1]), task(Replacement, vec![place(2, 1., &[], Some("r"))], &[1])]),
     ];
     let statics = core_templates();
     let mut out = vec![];
@@ -342,7 +345,31 @@ pub fn family_limits(_tier: Tier) -> Vec<PProblem> {
             job("late1", vec![task(Delivery, vec![place(2, 5., &[(200., 260.)], None)], &[1])]),
             job("late2", vec![task(Delivery, vec![place(4, 5., &[(200., 300.)], None)], &[1])]),
         ];
-        out.push(base(format!("limits/late/{md}"), jobs, vec![v]));
+        out.push(base(format!("limits/late/{md}"), jobs.clone(), vec![v]));
+        // the same with a latest departure: leaving later to shorten the tour is not allowed
+        for latest in [0., 10., 150.] {
+            let mut s = shift(ShiftKind::Closed);
+            s.start_latest = Some(latest);
+            let mut v = vehicle_type("v", 2, &[5], vec![s]);
+            v.limits = Some(PLimits { max_duration: Some(md), ..Default::default() });
+            let mut jobs = jobs.clone();
+            jobs.push(job("near", vec![task(Delivery, vec![place(1, 2., &[], None)], &[1])]));
+            out.push(base(format!("limits/late-start-latest/{md}/{latest}"), jobs, vec![v]));
+        }
+    }
+    // tour size counts activities, not jobs: multi-task jobs
+    for size in [2usize, 3, 4] {
+        for fleet in [1usize, 2] {
+            let mut v = vehicle_type("v", fleet, &[5], vec![shift(ShiftKind::Closed)]);
+            v.limits = Some(PLimits { tour_size: Some(size), ..Default::default() });
+            let jobs = vec![
+                job("pd1", vec![task(Pickup, vec![place(1, 1., &[], None)], &[1]), task(Delivery, vec![place(2, 1., &[], None)], &[1])]),
+                job("pd2", vec![task(Pickup, vec![place(3, 1., &[], None)], &[1]), task(Delivery, vec![place(1, 1., &[], None)], &[1])]),
+                job("s", vec![task(Service, vec![place(2, 1., &[], None)], &[])]),
+                job("ppd", vec![task(Pickup, vec![place(1, 1., &[], None)], &[1]), task(Pickup, vec![place(4, 1., &[], None)], &[1]), task(Delivery, vec![place(2, 1., &[], None)], &[2])]),
+            ];
+            out.push(base(format!("limits/tour-size-multi/{size}/f{fleet}"), jobs, vec![v]));
+        }
     }
     out
 }
@@ -541,6 +568,74 @@ pub fn family_line12() -> Vec<PProblem> {
     out
 }
 
+/// F-places: jobs at the shift start / end location (they share a stop with departure / arrival) and tasks with
+/// alternative places at different locations of which a later one has to be (or is better) used.
+pub fn family_places(_tier: Tier) -> Vec<PProblem> {
+    use TaskKind::*;
+    let templates = vec![
+        job("d_depot", vec![task(Delivery, vec![place(0, 2., &[], None)], &[1])]),
+        job("p_depot", vec![task(Pickup, vec![place(0, 1., &[(0., 500.)], Some("at-depot"))], &[1])]),
+        job("d_end", vec![task(Delivery, vec![place(2, 3., &[], None)], &[1])]),
+        // first place cannot be reached in time, the second one has to be used
+        job("d_alt", vec![task(Delivery, vec![place(4, 1., &[(0., 5.)], Some("far")), place(1, 1., &[], Some("near"))], &[1])]),
+        // both usable, the later one is much cheaper
+        job("d_alt2", vec![task(Delivery, vec![place(4, 2., &[(0., 400.)], Some("x")), place(1, 2., &[(0., 400.)], Some("y"))], &[1])]),
+        // three places, only the last is usable
+        job("s_alt3", vec![task(Service, vec![place(4, 1., &[(0., 5.)], None), place(3, 1., &[(0., 5.)], None), place(2, 4., &[], None)], &[])]),
+        job("d_near", vec![task(Delivery, vec![place(1, 3., &[], None)], &[1])]),
+    ];
+    let shifts = [
+        PShift { start_loc: 0, start_earliest: 0., start_latest: None, end: Some((0, 1000.)), breaks: vec![], reloads: vec![] },
+        PShift { start_loc: 0, start_earliest: 0., start_latest: None, end: Some((2, 1000.)), breaks: vec![], reloads: vec![] },
+        PShift { start_loc: 0, start_earliest: 0., start_latest: None, end: None, breaks: vec![], reloads: vec![] },
+    ];
+    let mut out = vec![];
+    for k in 1..=3 {
+        for picks in multisets(templates.len(), k) {
+            // at most one copy of a template
+            if picks.windows(2).any(|w| w[0] == w[1]) {
+                continue;
+            }
+            for (si, s) in shifts.iter().enumerate() {
+                for cap in [1i64, 3] {
+                    out.push(base(format!("places/{picks:?}/s{si}/c{cap}"), instantiate(&templates, &picks), vec![vehicle_type("v", 1, &[cap], vec![s.clone()])]));
+                }
+            }
+        }
+    }
+    out
+}
+
+/// F-fleet4: four vehicles, three or four tours, conditional jobs (breaks / reloads) of used and unused vehicles:
+/// the shapes decomposition and redistribution need.
+pub fn family_fleet4(_tier: Tier) -> Vec<PProblem> {
+    use TaskKind::*;
+    let mut out = vec![];
+    let deliveries = |n: usize| -> Vec<PJob> { (0..n).map(|i| job(&format!("d{i}"), vec![task(Delivery, vec![place(1 + (i + 3) % 4, 2., &[], None)], &[1])])).collect() };
+    for n in [5usize, 6] {
+        for kind in 0..3 {
+            for with_relation in [false, true] {
+                let mut s = shift(ShiftKind::Closed);
+                s.end = Some((0, 400.));
+                match kind {
+                    0 => s.breaks = vec![PBreak { time: (30., 90.), duration: 7., loc: None, tag: Some("lunch".into()) }],
+                    1 => s.reloads = vec![PReload { loc: 0, duration: 4., times: vec![], tag: Some("r1".into()) }],
+                    _ => {
+                        s.breaks = vec![PBreak { time: (30., 90.), duration: 7., loc: None, tag: Some("lunch".into()) }];
+                        s.reloads = vec![PReload { loc: 0, duration: 4., times: vec![], tag: Some("r1".into()) }];
+                    }
+                }
+                let mut p = base(format!("fleet4/n{n}/k{kind}/r{with_relation}"), deliveries(n), vec![vehicle_type("v", 4, &[2], vec![s])]);
+                if with_relation {
+                    p.relations = vec![PRelation { kind: "any".into(), jobs: vec!["d1".into(), "d2".into()], vehicle_id: "v_2".into(), shift_index: Some(0) }];
+                }
+                out.push(p);
+            }
+        }
+    }
+    out
+}
+
 pub fn all_families(tier: Tier) -> Vec<(&'static str, Vec<PProblem>)> {
     raw_families(tier).into_iter().map(|(n, ps)| (n, ps.into_iter().map(|p| p.fit_matrices()).collect())).collect()
 }
@@ -558,5 +653,7 @@ fn raw_families(tier: Tier) -> Vec<(&'static str, Vec<PProblem>)> {
         ("scale", family_scale(tier)),
         ("infeasible", family_infeasible(tier)),
         ("shape", family_shape(tier)),
+        ("places", family_places(tier)),
+        ("fleet4", family_fleet4(tier)),
     ]
 }
